@@ -6,16 +6,21 @@ demonstration fails with the change and passes without it."""
 import glob, json, os, re, shutil, sys
 ROOT = os.path.dirname(os.path.dirname(os.path.abspath(__file__)))
 EXCLUDE = {"C02-m3": "re-associated sum: not a violation of the property in exact arithmetic (DESIGN 12.4)"}
+AUDIT = {}
+ap = os.path.join(ROOT, "audit", "results.json")
+if os.path.exists(ap):
+    AUDIT = {r["id"]: r for r in json.load(open(ap))}
 for d in sorted(glob.glob(os.path.join(ROOT, "seeded_staging", "*"))):
     mid = os.path.basename(d)
     cf = os.path.join(d, "confirm.json")
     if not os.path.exists(cf):
         continue
     c = json.load(open(cf))
-    facts = ["applies", "builds", "suite_passes", "demo_fails_with_change", "demo_passes_without"]
+    refactoring = bool(re.match(r"^R\d+-r\d+$", mid))
+    facts = ["applies", "builds", "suite_passes"] + ([] if refactoring else ["demo_fails_with_change", "demo_passes_without"])
     if not all(c.get(k) for k in facts) or mid in EXCLUDE:
         continue
-    prop = mid.split("-")[0]
+    prop = None if refactoring else mid.split("-")[0]
     notes = open(os.path.join(d, "notes.md"), errors="replace").read()
     title = notes.splitlines()[0].lstrip("# ").strip()
     need = ""
@@ -23,19 +28,28 @@ for d in sorted(glob.glob(os.path.join(ROOT, "seeded_staging", "*"))):
         if re.match(r"^\W*(Condition|Needs|Condition to manifest|Manifests)\b", line.strip(), re.I):
             need = line.strip()
             break
-    log = os.path.join(ROOT, "work", "mutant_%s_%s.log" % (mid, prop))
-    det = {}
-    if os.path.exists(log):
-        txt = open(log, errors="replace").read()
-        det = {"check": "./check %s --tier quick" % prop, "violation_lines": txt.count("\nVIOLATION") + txt.startswith("VIOLATION"),
-               "first_key": (re.search(r"key=(\S+)", txt) or [None, None])[1]}
     out = os.path.join(ROOT, "seeded", mid)
     os.makedirs(out, exist_ok=True)
-    for f in ("patch.diff", "demo.rs", "notes.md"):
-        shutil.copy(os.path.join(d, f), os.path.join(out, f))
-    json.dump({"id": mid, "property": prop, "title": title, "needs_to_manifest": need or "see notes.md",
-               "confirmed": {k: c[k] for k in facts}, "confirmed_at_repo_head": c.get("repo_head"),
-               "what_was_run": ["tools/confirm_mutants.sh seeded_staging/%s  (scratch worktree of /repo under /tmp, removed afterwards)" % mid,
-                                "tools/try_mutant.sh seeded/%s/patch.diff %s quick  (git apply in /repo, check, git checkout -- .)" % (mid, prop)],
-               "detected_by": det}, open(os.path.join(out, "meta.json"), "w"), indent=1)
-    print(mid, det.get("first_key"))
+    for f in ("patch.diff", "demo.rs", "demo.sh", "notes.md"):
+        if os.path.exists(os.path.join(d, f)):
+            shutil.copy(os.path.join(d, f), os.path.join(out, f))
+    if refactoring:
+        meta = {"id": mid, "kind": "behaviour-preserving refactoring (negative control)", "property": None, "title": title,
+                "expected": "no check may report a violation with this change applied",
+                "confirmed": {k: c[k] for k in facts}, "confirmed_at_repo_head": c.get("repo_head"),
+                "what_was_run": ["tools/confirm_mutants.sh seeded_staging/%s  (scratch worktree of /repo under /tmp, removed afterwards)" % mid,
+                                 "tools/audit_refactor.sh %s <slot> seeded_staging/%s-r*/patch.diff  (all patches of the set applied together "
+                                 "to a scratch worktree; every property's quick check must exit 0)" % (mid.split("-")[0], mid.split("-")[0])],
+                "result": AUDIT.get(mid, {})}
+    else:
+        a = AUDIT.get(mid, {})
+        det = {"check": "./check %s --tier %s" % (prop, a.get("tier", "quick")), "exit": a.get("exit"), "caught": a.get("caught"),
+               "first_key": a.get("first_key")} if a else {}
+        meta = {"id": mid, "property": prop, "title": title, "needs_to_manifest": need or "see notes.md",
+                "confirmed": {k: c[k] for k in facts}, "confirmed_at_repo_head": c.get("repo_head"),
+                "what_was_run": ["tools/confirm_mutants.sh seeded_staging/%s  (scratch worktree of /repo under /tmp, removed afterwards)" % mid,
+                                 "tools/try_mutant_wt.sh seeded/%s/patch.diff %s quick <slot>  (scratch worktree of /repo with the patch, scratch "
+                                 "copy of the harness pointed at it; /repo untouched)" % (mid, prop)],
+                "detected_by": det}
+    json.dump(meta, open(os.path.join(out, "meta.json"), "w"), indent=1)
+    print(mid, meta.get("detected_by", meta.get("result")))
